@@ -778,6 +778,22 @@ func fixExpressionTypes(exp syntax.Exp, tname syntax.TypeId, lookup *syntax.Type
 	}
 }
 
+// structMemberType returns the type of the given field if tname is a struct
+// type which declares it, and otherwise tname (the element type of a map).
+func structMemberType(tname syntax.TypeId, field string, kind syntax.ExpKind,
+	lookup *syntax.TypeLookup) syntax.TypeId {
+	if kind == syntax.KindStruct && lookup != nil {
+		if st, ok := lookup.Get(tname).(*syntax.StructType); ok {
+			for _, m := range st.Members {
+				if m.Id == field {
+					return m.Tname
+				}
+			}
+		}
+	}
+	return tname
+}
+
 func convertToExp(parser *syntax.Parser, split bool, val json.Marshaler,
 	tname syntax.TypeId, lookup *syntax.TypeLookup) (syntax.ValExp, error) {
 	switch val := val.(type) {
@@ -828,7 +844,8 @@ func convertToExp(parser *syntax.Parser, split bool, val json.Marshaler,
 		}
 		for k, v := range val {
 			if e, err := convertToExp(parser, false,
-				v, tname, lookup); err != nil {
+				v, structMemberType(tname, k, res.Kind, lookup),
+				lookup); err != nil {
 				return &res, err
 			} else {
 				res.Value[k] = e
@@ -848,7 +865,8 @@ func convertToExp(parser *syntax.Parser, split bool, val json.Marshaler,
 		}
 		for k, v := range val {
 			if e, err := convertToExp(parser, false,
-				v, tname, lookup); err != nil {
+				v, structMemberType(tname, k, res.Kind, lookup),
+				lookup); err != nil {
 				return &res, err
 			} else {
 				res.Value[k] = e
